@@ -6,8 +6,8 @@ package limits
 // key populations up to and beyond the bucket-table capacity (sequential).
 
 import (
-	"encoding/json"
 	"context"
+	"encoding/json"
 	"fmt"
 	"net"
 	"sort"
@@ -27,6 +27,12 @@ func c11Group(scopes []string, n int, kind string) (*Group, error) {
 			// two limiters in one scope: a concurrency limit followed by a slow rate limit
 			ch = append(ch, config.Node{Name: s, Args: []string{"concurrency", fmt.Sprint(n)}})
 			ch = append(ch, config.Node{Name: s, Args: []string{"rate", "1", "10s"}})
+			continue
+		}
+		if kind == "concurrency+rate0" {
+			// a concurrency limit next to a rate limit that is switched off (burst 0)
+			ch = append(ch, config.Node{Name: s, Args: []string{"rate", "0"}})
+			ch = append(ch, config.Node{Name: s, Args: []string{"concurrency", fmt.Sprint(n)}})
 			continue
 		}
 		if kind == "rate" {
@@ -369,7 +375,7 @@ func TestVerifC11Keys(t *testing.T) {
 func TestVerifC11Reap(t *testing.T) {
 	r := vx.Start("C11", "reap")
 	defer r.Finish()
-	r.Rule("for each scope in {ip, source, destination} x N in {1,2} x population {cap-1, cap, cap+50 further distinct keys, each released at once} x trigger {the busy key itself, another new key}: N permits of one key are held, the population fills the bucket table, the virtual clock passes the reap interval, the trigger take makes the table sweep its stale buckets; then a further take of the busy key must still be refused, its N releases must not panic and afterwards exactly N permits can be taken again; plus, per scope, cap+1 keys that each saw one timed-out take: after release and the reap interval new keys must be admitted. Non-trivial: cases whose population reaches the table capacity (a sweep happens)")
+	r.Rule("for each scope in {ip, source, destination} x N in {1,2} x population {cap-1, cap, cap+50 further distinct keys, each released at once} x trigger {the busy key itself, another new key} x limiters {concurrency; concurrency next to a switched-off rate limit (rate 0)}: N permits of one key are held, the population fills the bucket table, the virtual clock passes the reap interval, the trigger take makes the table sweep its stale buckets; then a further take of the busy key must still be refused, its N releases must not panic and afterwards exactly N permits can be taken again; plus, per scope, cap+1 keys that each saw one timed-out take: after release and the reap interval new keys must be admitted. Non-trivial: cases whose population reaches the table capacity (a sweep happens)")
 	if r.Replaying() && r.Replay() == nil {
 		return
 	}
@@ -378,6 +384,7 @@ func TestVerifC11Reap(t *testing.T) {
 		N       int    `json:"n"`
 		Trigger string `json:"sweep_triggered_by"`
 		Fill    int    `json:"population"`
+		Kind    string `json:"limiters,omitempty"` // "" = concurrency; "concurrency+rate0" = plus a switched-off rate limit
 	}
 	const capacity = 20010
 	i := 0
@@ -385,101 +392,110 @@ func TestVerifC11Reap(t *testing.T) {
 		for _, n := range []int{1, 2} {
 			for _, trigger := range []string{"busy-key", "other-key"} {
 				for _, fill := range []int{capacity - 1, capacity, capacity + 50} {
-					i++
-					if !r.Mine(i) {
-						continue
-					}
-					c := rc{scope, n, trigger, fill}
-					if rp := r.Replay(); rp != nil {
-						if json.Unmarshal(rp, &c) != nil {
-							r.HarnessError("bad replay")
-							return
+					for _, lk := range []string{"", "concurrency+rate0"} {
+						if lk != "" && (n != 1 || fill == capacity-1) {
+							continue
 						}
-					}
-					r.Eval()
-					if c.Fill >= capacity {
-						r.Nontrivial(vx.JSON(c))
-					}
-					r.Sample(c)
-					var detail, kind string
-					body := func() {
-						g, err := c11Group([]string{c.Scope}, c.N, "concurrency")
-						if err != nil {
-							detail, kind = "init: "+err.Error(), "init"
-							return
+						i++
+						if !r.Mine(i) {
+							continue
 						}
-						take := func(k int, d time.Duration) error {
-							ctx, cancel := vsched.WithTimeout(context.Background(), d)
-							defer cancel()
-							ip := net.IPv4(10, byte(k>>16), byte(k>>8), byte(k))
-							switch c.Scope {
-							case "ip":
-								return g.TakeMsg(ctx, ip, "a.org")
-							case "source":
-								return g.TakeMsg(ctx, net.IPv4(1, 1, 1, 1), fmt.Sprintf("d%d.org", k))
-							default:
-								return g.TakeDest(ctx, fmt.Sprintf("d%d.org", k))
-							}
-						}
-						release := func(k int) {
-							ip := net.IPv4(10, byte(k>>16), byte(k>>8), byte(k))
-							switch c.Scope {
-							case "ip":
-								g.ReleaseMsg(ip, "a.org")
-							case "source":
-								g.ReleaseMsg(net.IPv4(1, 1, 1, 1), fmt.Sprintf("d%d.org", k))
-							default:
-								g.ReleaseDest(fmt.Sprintf("d%d.org", k))
-							}
-						}
-						const busy = 0
-						for j := 0; j < c.N; j++ {
-							if err := take(busy, time.Second); err != nil {
-								detail, kind = fmt.Sprintf("permit %d of %d of a fresh key refused: %v", j+1, c.N, err), "fresh-key-refused"
+						c := rc{scope, n, trigger, fill, lk}
+						if rp := r.Replay(); rp != nil {
+							if json.Unmarshal(rp, &c) != nil {
+								r.HarnessError("bad replay")
 								return
 							}
 						}
-						for k := 1; k <= c.Fill; k++ {
-							if err := take(k, 50*time.Millisecond); err == nil {
-								release(k)
+						r.Eval()
+						if c.Fill >= capacity {
+							r.Nontrivial(vx.JSON(c))
+						}
+						r.Sample(c)
+						var detail, kind string
+						body := func() {
+							kindOf := c.Kind
+							if kindOf == "" {
+								kindOf = "concurrency"
 							}
-						}
-						vsched.Advance(3 * time.Minute)
-						if c.Trigger == "other-key" {
-							if err := take(c.Fill+1, 50*time.Millisecond); err == nil {
-								release(c.Fill + 1)
+							g, err := c11Group([]string{c.Scope}, c.N, kindOf)
+							if err != nil {
+								detail, kind = "init: "+err.Error(), "init"
+								return
 							}
-						}
-						if err := take(busy, 20*time.Millisecond); err == nil {
-							detail, kind = fmt.Sprintf("a further permit of the busy key was granted although %d of %d are held (the sweep dropped its bucket with the permits in it)", c.N, c.N), "limit-exceeded-after-sweep"
-							return
-						}
-						for j := 0; j < c.N; j++ {
-							release(busy)
-						}
-						got := 0
-						for j := 0; j < c.N+1; j++ {
+							take := func(k int, d time.Duration) error {
+								ctx, cancel := vsched.WithTimeout(context.Background(), d)
+								defer cancel()
+								ip := net.IPv4(10, byte(k>>16), byte(k>>8), byte(k))
+								switch c.Scope {
+								case "ip":
+									return g.TakeMsg(ctx, ip, "a.org")
+								case "source":
+									return g.TakeMsg(ctx, net.IPv4(1, 1, 1, 1), fmt.Sprintf("d%d.org", k))
+								default:
+									return g.TakeDest(ctx, fmt.Sprintf("d%d.org", k))
+								}
+							}
+							release := func(k int) {
+								ip := net.IPv4(10, byte(k>>16), byte(k>>8), byte(k))
+								switch c.Scope {
+								case "ip":
+									g.ReleaseMsg(ip, "a.org")
+								case "source":
+									g.ReleaseMsg(net.IPv4(1, 1, 1, 1), fmt.Sprintf("d%d.org", k))
+								default:
+									g.ReleaseDest(fmt.Sprintf("d%d.org", k))
+								}
+							}
+							const busy = 0
+							for j := 0; j < c.N; j++ {
+								if err := take(busy, time.Second); err != nil {
+									detail, kind = fmt.Sprintf("permit %d of %d of a fresh key refused: %v", j+1, c.N, err), "fresh-key-refused"
+									return
+								}
+							}
+							for k := 1; k <= c.Fill; k++ {
+								if err := take(k, 50*time.Millisecond); err == nil {
+									release(k)
+								}
+							}
+							vsched.Advance(3 * time.Minute)
+							if c.Trigger == "other-key" {
+								if err := take(c.Fill+1, 50*time.Millisecond); err == nil {
+									release(c.Fill + 1)
+								}
+							}
 							if err := take(busy, 20*time.Millisecond); err == nil {
-								got++
+								detail, kind = fmt.Sprintf("a further permit of the busy key was granted although %d of %d are held (the sweep dropped its bucket with the permits in it)", c.N, c.N), "limit-exceeded-after-sweep"
+								return
+							}
+							for j := 0; j < c.N; j++ {
+								release(busy)
+							}
+							got := 0
+							for j := 0; j < c.N+1; j++ {
+								if err := take(busy, 20*time.Millisecond); err == nil {
+									got++
+								}
+							}
+							if got != c.N {
+								detail, kind = fmt.Sprintf("after releasing the %d held permits, %d can be taken", c.N, got), "permit-count-after-sweep"
+								return
+							}
+							for j := 0; j < got; j++ {
+								release(busy)
 							}
 						}
-						if got != c.N {
-							detail, kind = fmt.Sprintf("after releasing the %d held permits, %d can be taken", c.N, got), "permit-count-after-sweep"
-							return
+						out := vsched.Run(nil, vsched.Options{MaxSteps: 50000000}, body)
+						if len(out.Panics) > 0 {
+							r.Violation("C11:reap:panic:"+vx.PanicSite(out.Panics[0]), fmt.Sprintf("%s: panic %v", vx.JSON(c), out.Panics[0]), c)
+						} else if out.Deadlock || out.StepCap {
+							r.Violation("C11:reap:hang", "deadlock or step cap: "+strings.Join(out.Blocked, "; "), c)
+						} else if detail != "" {
+							r.Violation("C11:reap:"+kind+":"+c.Scope, vx.JSON(c)+": "+detail, c)
+						} else {
+							r.Outcome("held-permits-survive-sweep")
 						}
-						for j := 0; j < got; j++ {
-							release(busy)
-						}
-					}
-					out := vsched.Run(nil, vsched.Options{MaxSteps: 50000000}, body)
-					if len(out.Panics) > 0 {
-						r.Violation("C11:reap:panic:"+vx.PanicSite(out.Panics[0]), fmt.Sprintf("%s: panic %v", vx.JSON(c), out.Panics[0]), c)
-					} else if out.Deadlock || out.StepCap {
-						r.Violation("C11:reap:hang", "deadlock or step cap: "+strings.Join(out.Blocked, "; "), c)
-					} else if detail != "" {
-						r.Violation("C11:reap:"+kind+":"+c.Scope, vx.JSON(c)+": "+detail, c)
-					} else {
-						r.Outcome("held-permits-survive-sweep")
 					}
 				}
 			}
